@@ -1,8 +1,9 @@
 """C16 — parallel-request limits are never exceeded and never leak (DESIGN.md §5 C16).
 
 Proof: Props/C16.lean — endpoint_limit_inv, total_limit_inv, fifo_per_path (+ queue_is_arrival_order), cancel_neutral,
-       cancel_neutral_sem, cancelled_never_starts, idle_after_all, fresh_admitted, waiting_justified: inductions over arbitrary event lists of
-       the limiter event system Model/Limiter.lean (invariant in Lemmas/Limiter.lean).
+       no_overtake_at_endpoint, fifo_observable, cancel_neutral_sem, cancelled_never_starts, idle_after_all, fresh_admitted,
+       waiting_justified: inductions over arbitrary event lists of
+       the limiter event system Model/Limiter.lean (invariants in Lemmas/Limiter.lean, Lemmas/LimiterOrder.lean).
 Tie:   X — the real limitparallelrequests.New(...) runs under testing/synctest (harness/c16): every order of
        {arrive, arrive-with-cancelled-context, cancel, finish} for a bounded number of requests / paths / limits is executed
        (DFS by re-execution), plus seeded random longer histories with several events per quiescence window.  Every
@@ -23,6 +24,18 @@ MODULES = ["CoapVerif.Props.C16"]
 CORPUS = os.path.join(common.VERIF, "corpus", "C16")
 
 
+RACES = [
+    # total limit 1, endpoint limit 2, a third request holds the total slot; 0 and 1 arrive for one path in one window
+    "cfg 1 2 ; arrive 9 1 ; arrive 0 0 & arrive 1 0 ; finish 9 ; finish 0 & finish 1 ; finish 0 & finish 1 ; idle",
+    "cfg 1 2 ; arrive 9 1 ; arrive 0 0 & arrive 1 0 & arrive 2 0 ; finish 9 ; finish 0 & finish 1 & finish 2 ; finish 0 & finish 1 & finish 2 ; finish 0 & finish 1 & finish 2 ; idle",
+    # both waiters are released from the path's queue in one window and then race for the total limit
+    "cfg 2 2 ; arrive 8 0 ; arrive 9 0 ; arrive 7 1 ; arrive 6 1 ; arrive 0 0 ; arrive 1 0 ; finish 8 & finish 9 ; finish 7 ; finish 6 ; finish 0 & finish 1 ; finish 0 & finish 1 ; idle",
+    # endpoint limit 1: calls of one window race for the registration itself
+    "cfg 2 1 ; arrive 9 0 ; arrive 0 0 & arrive 1 0 ; finish 9 ; finish 0 & finish 1 ; finish 0 & finish 1 ; idle",
+    "cfg 0 1 ; arrive 0 0 & arrive 1 0 & arrive 2 0 ; finish 0 & finish 1 & finish 2 ; finish 0 & finish 1 & finish 2 ; finish 0 & finish 1 & finish 2 ; idle",
+]
+
+
 def gen_lines(ctx):
     thorough = ctx.tier == "thorough"
     L = []
@@ -41,6 +54,11 @@ def gen_lines(ctx):
     else:
         L.append("explore 2 2 4 3 0")
         L.append("explore 2 1 5 2 0")
+    # calls made in the same window (no settling in between): their registration order and — past the per-path limit — the
+    # order in which they obtain the total limit are up to the Go scheduler; every outcome must be accepted by the judge and
+    # be a trace of the model.  Repeated because the outcome is not deterministic.
+    for _ in range(400 if thorough else 60):
+        L += ["replay " + r for r in RACES]
     n = 20000 if thorough else 2500
     L.append("random %d %d 8 3" % (ctx.seed, n))
     L.append("random %d %d 12 2" % (ctx.seed + 1000003, n // 2))
@@ -67,13 +85,13 @@ def run_harness(ctx, exe, lines, tag="x", timeout=3000):
     return out
 
 
-def drive(driver, verb, hist, workers=12):
-    """Run the Lean driver over history lines, in parallel chunks. Returns list of verdict lines or None."""
+def drive(driver, verb, hist, workers=14):
+    """Run the Lean driver over history lines in parallel (round-robin split: expensive histories are clustered).
+    Returns list of verdict lines or None."""
     if not hist:
         return []
-    n = max(1, min(workers, len(hist) // 200 + 1))
-    size = (len(hist) + n - 1) // n
-    chunks = [hist[i:i + size] for i in range(0, len(hist), size)]
+    n = max(1, min(workers, len(hist) // 100 + 1))
+    chunks = [hist[i::n] for i in range(n)]
 
     def one(ch):
         rc, out, _ = common.pipe_lines([driver, verb], ch)
@@ -82,7 +100,10 @@ def drive(driver, verb, hist, workers=12):
         res = list(ex.map(one, chunks))
     if any(r is None for r in res):
         return None
-    return [l for r in res for l in r]
+    out = [None] * len(hist)
+    for i, r in enumerate(res):
+        out[i::n] = r
+    return out
 
 
 def events_only(h):
@@ -92,12 +113,16 @@ def events_only(h):
 
 
 def classify(h):
-    """(has a cancel that hits a queued request, number of multi-event windows, number of events)"""
+    """(has a cancel that hits a queued request, number of multi-event windows, number of events, windows with several
+    calls, a later call of a path in flight while a textually earlier one of that path still waits)"""
     segs = [s.strip() for s in h.split(";")][1:]
     running, returned, arrived = set(), set(), set()
     queued_cancel = False
     multi = 0
     nev = 0
+    multi_arrive = 0
+    order, path, started, cancelled = [], {}, set(), set()
+    inversion = False
     for sg in segs:
         if "|" not in sg:
             continue
@@ -108,9 +133,17 @@ def classify(h):
         nev += len(parts)
         if len(parts) > 1:
             multi += 1
+        if sum(1 for e in parts if e[0] in ("arrive", "arrivec")) > 1:
+            multi_arrive += 1
         for e in parts:
             if e[0] in ("arrive", "arrivec"):
                 arrived.add(e[1])
+                order.append(e[1])
+                path[e[1]] = e[2]
+                if e[0] == "arrivec":
+                    cancelled.add(e[1])
+            if e[0] == "cancel":
+                cancelled.add(e[1])
             if e[0] == "cancel" and e[1] in arrived and e[1] not in running and e[1] not in returned:
                 queued_cancel = True
         w = obs.split()
@@ -120,7 +153,12 @@ def classify(h):
                 returned |= {r.split(":")[0] for r in w[3].split(",")}
         except IndexError:
             pass
-    return queued_cancel, multi, nev
+        started |= running
+        for b in running:
+            for a in order[:order.index(b)]:
+                if path[a] == path[b] and a not in started and a not in returned and a not in cancelled:
+                    inversion = True
+    return queued_cancel, multi, nev, multi_arrive, inversion
 
 
 def judge_one(ctx, art, evline, tag="min"):
@@ -190,7 +228,12 @@ def explore(ctx, art):
     seen_sig = set()
     validated = 0
     for i, h in enumerate(hist):
-        qc, multi, nev = classify(h)
+        qc, multi, nev, multi_arrive, inversion = classify(h)
+        if multi_arrive:
+            ctx.count("histories with several calls made in one window")
+        if inversion:
+            ctx.count("histories in which a later call of a path is in flight while an earlier one still waits (legal: "
+                      "same window, or both past the per-path limit)")
         cfg = " ".join(h.split(";")[0].split()[1:3])
         ctx.count("cfg " + cfg)
         ctx.count("events", nev)
@@ -234,7 +277,8 @@ def explore(ctx, art):
                        "{arrive (ids in order, path chosen up to symmetry), arrive with cancelled context (pre=1), cancel of a "
                        "non-running unreturned request, finish of a running request} until all n requests returned, for the "
                        "listed (limit, endpoint limit, n, paths) — see notes for the exact list of this tier; `random` adds seeded "
-                       "walks with up to 12 requests, 3 paths, limits 0..3 and 1-3 events per quiescence window. Each history "
+                       "walks with up to 12 requests, 3 paths, limits 0..3 and 1-3 events per quiescence window (also several calls in one "
+                       "window); fixed racing scenarios (same-path calls in one window behind a contended total limit) are repeated. Each history "
                        "is judged by Spec/Limiter.lean and checked for trace inclusion in Model/Limiter.lean. A history is "
                        "non-trivial when a cancel hits a request that is queued (arrived, not running, not returned); "
                        "distinct = by event sequence.")
